@@ -147,6 +147,17 @@ Theorem C08_documented_preconditions_meet_the_hypotheses : forall nx ny ix iy (w
   wp_sel_ok nx ny ix iy w /\ NoDup ix /\ NoDup iy.
 Proof. exact documented_preconditions_give_wp_sel_ok. Qed.
 
+(* "ends where the documentation says", per call of an index-based move on a zone with coordinates zx x zy: when the played
+   path is a transport from zone[src_x, src_y] to zone[dst_x, dst_y] (both decided by computation on the call), the atom on
+   zone[src_x[i], src_y[j]] ends on zone[dst_x[i], dst_y[j]] and nothing stays in the tweezers *)
+Theorem C08_documented_transport_delivers : forall T O ps zx zy sx sy dx dy,
+  transport_ok T O ps = true -> documented_transport zx zy sx sy dx dy ps = true ->
+  exists st', sim_paths (mkast T O [] [] []) ps = AOk st' /\ held st' = [] /\
+    forall i j, (i < length sx)%nat -> (j < length sy)%nat ->
+      occ_find (nth (nth i dx 0%nat) zx 0%Q, nth (nth j dy 0%nat) zy 0%Q) (occ st') =
+      occ_find (nth (nth i sx 0%nat) zx 0%Q, nth (nth j sy 0%nat) zy 0%Q) O.
+Proof. exact documented_transport_delivers. Qed.
+
 (* a CZ-move shaped program on a 2x1 selection: out along an L-shaped path, back along its reversal *)
 Example C08_example :
   let ALL := SSlice None None None in
@@ -174,3 +185,4 @@ Print Assumptions C08_selected_transport_is_executable_and_delivers.
 Print Assumptions C08_recognised_selected_transport_is_executable_and_delivers.
 Print Assumptions C08_positive_spacings_give_ascending_coordinates.
 Print Assumptions C08_documented_preconditions_meet_the_hypotheses.
+Print Assumptions C08_documented_transport_delivers.
